@@ -109,10 +109,15 @@ def handle (args : List String) (impl : String) : Verdict :=
             return out
           -- a node that occurs twice in the export (mirror inside the subtree) is written twice; its
           -- second occurrence shows the same points: the flat comparison still applies
-          let okSpec := impl == joinOr want ";"
+          -- the exported file of a tree without mirrors is the pre-order list of its own parent-pointer tree
+          -- (the premise under which c15_reexport says that exporting the imported tree gives the file back)
+          let mirrorFree := (flat.map (·.2.id)).eraseDups.length == flat.length
+          let selfR := !mirrorFree || SelfRebuilding (prepTop (flat.headD (0, ⟨[], [], [], [], []⟩)).2.parent flat)
+          let okSpec := impl == joinOr want ";" && selfR
           let yamlErr := impl == "err yaml"
           { model := m, spec := some okSpec,
-            note := if okSpec then "" else if hostile then "class=yaml-scalar-not-carried"
+            note := if okSpec then (if mirrorFree then "info=file-is-its-own-traversal" else "info=mirror-in-file")
+              else if !selfR then "class=export-not-preorder-of-own-tree" else if hostile then "class=yaml-scalar-not-carried"
               else if yamlErr then "class=yaml-error-on-plain-content" else "class=import-differs-from-export" }
       | _, _, _, _ => bad "C15 ops"
     | _ => bad "C15 case"
